@@ -13,6 +13,8 @@
   time — no bounds.
 -/
 import Upnp.Model.C12Cfg
+import Upnp.Model.C12ServiceMax
+import Upnp.Gen.C12ServiceTypes
 import Upnp.Lemmas.C12Ops
 import Upnp.Lemmas.C12Sub
 import Upnp.Lemmas.C12Renew
@@ -21,6 +23,7 @@ import Upnp.Lemmas.C12Rep
 import Upnp.Lemmas.C12Yield
 import Upnp.Lemmas.C12Lapse
 import Upnp.Lemmas.C12Zeno
+import Upnp.Lemmas.C12C09
 import Upnp.Spec.C12
 namespace Upnp.C12
 open Upnp PyDict
@@ -34,6 +37,27 @@ theorem gen_shapes : genCfg.skipStale = false ∧ genCfg.delEarly = false ∧ ge
 
 /-- the renewal margin is positive and shorter than the timeout asked for -/
 theorem gen_constants : 0 < genCfg.tol ∧ genCfg.tol < genCfg.subTimeout := by decide
+
+/-- **service_tables_contiguous** ("all … of its profile's services" starts here): for every profile class
+    (DmrDevice, DmsDevice, IgdDevice, PrinterDevice, ConnectionManagerMixin) and every service alias, the set of
+    service types extracted from `_SERVICE_TYPES` is exactly `prefix:1 … prefix:n` — no gap, no missing top
+    version, no missing or extra alias — with `n` the documented maximum (`Model/C12ServiceMax.lean`).
+    Dropping or adding a version or an alias in the source changes `Gen.C12ServiceTypes` and breaks this. -/
+theorem service_tables_contiguous :
+    Gen.C12ServiceTypes.serviceTypes = serviceMax.map (fun r => (r.1, r.2.1, r.2.2.1, upTo r.2.2.2)) := by decide
+
+/-- the same for `DEVICE_TYPES`: every device version `1 … n` of the profile's device type is accepted -/
+theorem device_tables_contiguous :
+    Gen.C12ServiceTypes.deviceTypes = deviceMax.map (fun r => (r.1, r.2.1, upTo r.2.2)) := by decide
+
+/-- spelled out: no version below the maximum is missing from any table -/
+theorem service_versions_no_gap :
+    ∀ r ∈ Gen.C12ServiceTypes.serviceTypes, ∀ v, 1 ≤ v → v ≤ r.2.2.2.length → v ∈ r.2.2.2 := by
+  intro r hr v h1 h2
+  rw [service_tables_contiguous] at hr
+  obtain ⟨q, _, rfl⟩ := List.mem_map.1 hr
+  simp only [upTo, List.length_map, List.length_range, List.mem_map, List.mem_range] at h2 ⊢
+  exact ⟨v - 1, by omega, by omega⟩
 
 /-! ### reachable states -/
 
@@ -674,5 +698,133 @@ example :
     BudgetOk 2 script ⟨.ok, .sec 300, 0⟩ ops = true
     ∧ ok 2 genCfg.tol genCfg.subTimeout (run genCfg 2 script ⟨.ok, .sec 300, 0⟩ ops).trace = true := by
   decide
+
+/-! ### composition with the event-handler model of C09
+
+The profile model carries a minimal routing table (`St.routed`).  C09's model of `UpnpEventHandler`
+(`Model/C09Gena.lean`: `doSubscribe`, `doResubscribe`, `doUnsubscribe`, `unsubAll`, proved in `Props/C09.lean` to
+mirror the publisher) performs a whole call atomically (request and answer in one step), whereas the profile
+model needs the call split in time (reply latency) and cancellable in between, so C09's functions do not replace
+`St.routed`; instead every routing-table effect of the profile model is proved to be the effect of the
+corresponding C09 call on the rendered table (`mapRt f`, `f` = any injective, never-empty rendering of SID
+numbers as SID text), for every publisher answer and TIMEOUT header text.  What remains outside: a call that is
+cancelled between request and reply (the profile model applies no / half of the effect, C09's model has no
+cancellation) — that part of the tie is the correspondence harness only. -/
+
+/-- **handler_refinement**: (1) an accepted SUBSCRIBE of the subscribe loop, (2) the whole subscribe loop, (3) the
+    delivery of an accepted renewal, (4) of an unreachable one, (5) a refused renewal followed by the fall-back
+    SUBSCRIBE, (6) the accepted fall-back and (7) unsubscribing all — each is the corresponding call of C09's
+    handler model on the rendered routing table. -/
+theorem handler_refinement (f : Sid → C09.Str) (hinj : ∀ a b, f a = f b → a = b) (hne : ∀ a, f a ≠ []) (c : C09.Cfg)
+    (T : Int) (th : Option C09.Str) (rs : List C09.Reaction) :
+    (∀ (now0 : Time) (i : Nat) (st : St), (send st .sub i none).1.reac.accepts = true →
+        mapRt f (subNext genCfg now0 i st).routed
+          = (C09.doSubscribe c (mapRt f st.routed) i T (.resp 200 (some (f st.nextSid)) th :: rs)).rt)
+    ∧ (∀ (now0 : Time) (l : List Nat) (st : St), ∃ calls : List (Nat × C09.Reaction), calls.map (·.1) = l.take calls.length ∧
+        c09SubLoop c T calls (mapRt f st.routed)
+          = (mapRt f (subLoop genCfg now0 l st).1.routed, (subLoop genCfg now0 l st).2.isNone))
+    ∧ (∀ (st : St) (rnow : Time) (rest : List (Sid × Time)) (cur : Sid) (svc : Nat) (replyAt : Time) (reac : Reac)
+        (tmo : Tmo) (granted : Option Sid), TaskOk st →
+        st.task = .inflight rnow rest cur svc false replyAt reac tmo granted →
+        (reac.accepts = true →
+          mapRt f (deliver genCfg st).routed
+            = (C09.doResubscribe c (mapRt f st.routed) (.sid (f cur)) T (.resp 200 (some (f (granted.getD cur))) th :: rs)).rt)
+        ∧ (reac.accepts = false → (reac == Reac.unreach) = true →
+          mapRt f (deliver genCfg st).routed = (C09.doResubscribe c (mapRt f st.routed) (.sid (f cur)) T (.connErr :: rs)).rt)
+        ∧ (reac.accepts = false → (reac == Reac.unreach) = false →
+          (C09.doResubscribe c (mapRt f st.routed) (.sid (f cur)) T (.resp 412 none th :: rs)).rt
+            = (C09.doSubscribe c (mapRt f (deliver genCfg st).routed) svc T rs).rt))
+    ∧ (∀ (st : St) (rnow : Time) (rest : List (Sid × Time)) (cur : Sid) (svc : Nat) (replyAt : Time) (reac : Reac)
+        (tmo : Tmo) (granted : Option Sid), TaskOk st →
+        st.task = .inflight rnow rest cur svc true replyAt reac tmo granted → reac.accepts = true →
+        mapRt f (deliver genCfg st).routed
+          = (C09.doSubscribe c (mapRt f st.routed) svc T (.resp 200 (some (f (granted.getD cur))) th :: rs)).rt)
+    ∧ (∀ st : St, mapRt f (unsubscribeServices st).routed
+          = (C09.unsubAll c ((keys st.subs).map f) (mapRt f st.routed) rs).rt) := by
+  refine ⟨fun now0 i st h => subscribe_step_refines f hinj genCfg c now0 i st T th rs h,
+    fun now0 l st => subLoop_refines f hinj genCfg c now0 T th l st, ?_, ?_, fun st => unsubscribe_refines f hinj c st rs⟩
+  · intro st rnow rest cur svc replyAt reac tmo granted htask ht
+    exact ⟨fun ha => renew_accept_refines f hinj hne genCfg c st htask rnow rest cur svc replyAt reac tmo granted ht ha T th rs,
+      fun ha hu => renew_unreach_refines f hinj genCfg c st htask rnow rest cur svc replyAt reac tmo granted ht ha hu T rs,
+      fun ha hu => renew_refused_refines f hinj genCfg c st htask rnow rest cur svc replyAt reac tmo granted ht ha hu T 412
+        (by decide) none th rs⟩
+  · intro st rnow rest cur svc replyAt reac tmo granted htask ht ha
+    exact fallback_accept_refines f hinj genCfg c st htask rnow rest cur svc replyAt reac tmo granted ht ha T th rs
+
+/-- **clean_unsubscribe_composed**: in every reachable state, running C09's `async_unsubscribe` for every SID of
+    the profile's bookkeeping on the (rendered) routing table — which is what the profile's unsubscribe does —
+    leaves C09's routing table empty, whatever the publisher answers; and that is the profile model's table
+    after `doUnsub`. -/
+theorem clean_unsubscribe_composed (f : Sid → C09.Str) (hinj : ∀ a b, f a = f b → a = b) (c : C09.Cfg)
+    (n : Nat) (script : List Entry) (dflt : Entry) (ops : List Op) (rs : List C09.Reaction)
+    (hh : (run genCfg n script dflt ops).halted = false) :
+    let st := run genCfg n script dflt ops
+    let S := settle genCfg (st.emit (.call st.now .unsub))
+    (C09.unsubAll c ((keys S.subs).map f) (mapRt f S.routed) rs).rt = []
+    ∧ mapRt f (doUnsub genCfg st).routed = (C09.unsubAll c ((keys S.subs).map f) (mapRt f S.routed) rs).rt := by
+  intro st S
+  obtain ⟨hcore, htask⟩ := reachable_consistent n script dflt ops
+  have hcS := (settle_core genCfg gen_shapes.2.1 _ (hcore.emit (.call st.now .unsub)) (by simpa [TaskOk, St.emit] using htask)).1
+  have hu := unsubscribeServices_clean S hcS
+  have href := unsubscribe_refines f hinj c S rs
+  have hset : S.halted = false := by
+    show (settle genCfg (st.emit (.call st.now .unsub))).halted = false
+    rw [settle_halted genCfg gen_shapes.1 (st.emit (.call st.now .unsub)) hcore.subsNodup]; exact hh
+  have hdo : (doUnsub genCfg st).routed = (unsubscribeServices S).routed := by
+    have hh' : st.halted = false := hh
+    have hset' : (settle genCfg (st.emit (.call st.now .unsub))).halted = false := hset
+    unfold doUnsub
+    simp only [hh', Bool.false_eq_true, if_false, hset']
+    rfl
+  refine ⟨?_, by rw [hdo]; exact href⟩
+  rw [← href, hu.2.1]; rfl
+
+/-- **all_or_nothing_composed**: a subscribe call of the profile (nothing subscribed before) is, on C09's handler
+    model, a run of `async_subscribe` calls (`c09SubLoop`) over a prefix of the profile's services — if all of
+    them succeed the profile's routing table afterwards is exactly C09's; if one raises, C09's `async_unsubscribe`
+    for every SID of the bookkeeping (the roll-back) empties C09's table, which is again the profile's. -/
+theorem all_or_nothing_composed (f : Sid → C09.Str) (hinj : ∀ a b, f a = f b → a = b) (c : C09.Cfg) (T : Int)
+    (th : Option C09.Str) (rs : List C09.Reaction) (n : Nat) (auto : Bool) (st : St) (h : Core st)
+    (hpre : (st.halted || !st.subs.isEmpty || st.task.alive) = false) :
+    ∃ calls : List (Nat × C09.Reaction), calls.map (·.1) = (List.range n).take calls.length ∧
+      ((c09SubLoop c T calls (mapRt f st.routed)).2 = true →
+          mapRt f (doSub genCfg n auto st).routed = (c09SubLoop c T calls (mapRt f st.routed)).1)
+      ∧ ((c09SubLoop c T calls (mapRt f st.routed)).2 = false →
+          mapRt f (doSub genCfg n auto st).routed = []
+          ∧ ∃ sids : List Sid, (C09.unsubAll c (sids.map f) (c09SubLoop c T calls (mapRt f st.routed)).1 rs).rt = []) := by
+  obtain ⟨calls, h1, h2⟩ := subLoop_refines f hinj genCfg c st.now T th (List.range n) (st.emit (.call st.now (.sub auto)))
+  have hcoreS := subLoop_core genCfg st.now (List.range n) (st.emit (.call st.now (.sub auto))) (h.emit _)
+  refine ⟨calls, h1, ?_, ?_⟩
+  · intro hok
+    have h2' : c09SubLoop c T calls (mapRt f st.routed) = _ := h2
+    rw [h2'] at hok ⊢
+    unfold doSub
+    simp only [hpre, Bool.false_eq_true, if_false]
+    have hnow : (st.emit (.call st.now (.sub auto))).now = st.now := rfl
+    simp only [hnow]
+    generalize subLoop genCfg st.now (List.range n) (st.emit (.call st.now (.sub auto))) = L at hok ⊢
+    obtain ⟨S, err⟩ := L
+    cases err with
+    | some e => simp at hok
+    | none => dsimp only; split <;> rfl
+  · intro hfail
+    have h2' : c09SubLoop c T calls (mapRt f st.routed) = _ := h2
+    rw [h2'] at hfail ⊢
+    unfold doSub
+    simp only [hpre, Bool.false_eq_true, if_false]
+    have hnow : (st.emit (.call st.now (.sub auto))).now = st.now := rfl
+    simp only [hnow]
+    generalize subLoop genCfg st.now (List.range n) (st.emit (.call st.now (.sub auto))) = L at hfail hcoreS ⊢
+    obtain ⟨S, err⟩ := L
+    cases err with
+    | none => simp at hfail
+    | some e =>
+      dsimp only at hcoreS ⊢
+      have hu := unsubscribeServices_clean S hcoreS.1
+      have href := unsubscribe_refines f hinj c S rs
+      refine ⟨?_, keys S.subs, ?_⟩
+      · show mapRt f (unsubscribeServices S).routed = []
+        rw [hu.2.1]; rfl
+      · rw [← href, hu.2.1]; rfl
 
 end Upnp.C12
